@@ -23,12 +23,19 @@ def check(ctx):
     core.cg_relation_lifting(ctx, "C11")
     core.cg_priority_passthrough(ctx, "C11")
     core2.mgr_ready_dependencies(ctx, "C11")
+    from . import core7
+
+    core7.nonexclusive_callers_mergeable(ctx, "C11")
 
 
 MUTANTS = [
+    ("double-call-only-called-method-nonexclusive", M, "ancestor.nonexclusive for ancestor in new_ancestors if ancestor in old_ancestors", "ancestor.nonexclusive for ancestor in new_ancestors[:1] if ancestor in old_ancestors"),
+    ("double-call-nonexclusive-in-one-chain", M, "ancestor.nonexclusive for ancestor in new_ancestors if ancestor in old_ancestors", "ancestor.nonexclusive for ancestor in new_ancestors"),
+    ("nonexclusive-callers-independent", M, "                if k1 == 0 and k2 == 0 and elem.nonexclusive:\n                    continue  # callers of a nonexclusive method can run as one transaction\n", ""),
+    ("exemption-for-every-group-pair", M, "if k1 == 0 and k2 == 0 and elem.nonexclusive:", "if elem.nonexclusive:"),
     ("double-call-only-direct", M, "                        for old_ancestors, old_call_path in call_sights[method]:\n", "                        for old_ancestors, old_call_path in call_sights[method][:1]:\n"),
-    ("double-call-rejects-nonexclusive", M, "if not method.nonexclusive and not call_paths_exclusive(old_call_path, new_call_path):", "if not call_paths_exclusive(old_call_path, new_call_path):"),
-    ("double-call-rejects-alternatives", M, "if not method.nonexclusive and not call_paths_exclusive(old_call_path, new_call_path):", "if not method.nonexclusive:"),
+    ("double-call-rejects-nonexclusive", M, "if not through_nonexclusive and not call_paths_exclusive(old_call_path, new_call_path):", "if not call_paths_exclusive(old_call_path, new_call_path):"),
+    ("double-call-rejects-alternatives", M, "if not through_nonexclusive and not call_paths_exclusive(old_call_path, new_call_path):", "if not through_nonexclusive:"),
     ("recursion-check-after-descent", M, "                        if method in ancestors:\n                            report_cycle(method, new_ancestors)\n", "                        if method in ancestors and len(ancestors) > 8:\n                            report_cycle(method, new_ancestors)\n"),
     ("report-cycle-silent", M, "            msg += f\"\\n{path_str(ancestors[ancestors.index(method) :])}\"\n            raise RuntimeError(msg)", "            msg += f\"\\n{path_str(ancestors[ancestors.index(method) :])}\"\n            print(msg)"),
     ("validate-only-transactions", M, "        for obj in chain(methods, transactions):\n            validate_root_call_tree(obj._body)", "        for obj in transactions:\n            validate_root_call_tree(obj._body)"),
